@@ -9,7 +9,7 @@ RULE = ("kind=container (85%): data sets of 0..40 rows x 1..3 columns of doubles
         "weights (floats, aligned with rows), dropna on/off, bins as explicit edges / a bin count / adaptive fixed width, explicit or "
         "inherited axis names; every applicable container is built from the same rows: list, tuple, iterator, (n,1) array, pandas "
         "Series (+ .physt accessor, + DataFrame accessor with column and weight-column names), polars Series (+ namespace), list of "
-        "rows, ndarray, separate columns (h2 / h3), pandas DataFrame (+ accessor), polars DataFrame (+ namespace), dask arrays in "
+        "rows, ndarray, float32 arrays / lists / Series / frames of float32-exact values, separate columns (h2 / h3), pandas DataFrame (+ accessor), polars DataFrame (+ namespace), dask arrays in "
         "1..7 uneven chunks; defects: non-numeric values, polars nulls, wrong shapes (DataFrame to h1, 3 columns to h2, ragged "
         "rows, weights of another length). kind=convert (15%): 1-D histograms with irregular / gapped / integer bins, weights, "
         "under/overflow through to_xarray/from_xarray, to_dataframe / to_series + index_to_binning, binning_to_index, and Geant4 "
@@ -42,6 +42,7 @@ def gen(rng, n, tier):
         pnan = rng.choice([0, 0, 0.1, 0.3])
         iscale = rng.choice([1, 1, 200, 50000]) if ints else 1
         rows = [[("nan" if rng.random() < pnan else (Fr(rng.randint(-5, 15) * iscale) if ints else fl(rng.uniform(-3, 12)))) for _ in range(nd)] for _ in range(nrows)]
+        f32 = (not ints) and rng.random() < 0.25
         weights = "none" if rng.random() < 0.5 else [fl(rng.choice([1.0, 0.5, 2.0, rng.random() * 3])) for _ in range(nrows)]
         dropna = rng.random() < 0.75
         bk = rng.choice(["edges", "edges", "int", "fixed"])
@@ -57,9 +58,12 @@ def gen(rng, n, tier):
         defect = "none" if rng.random() < 0.85 else rng.choice(["nonnumeric", "null", "shape", "weights_length"])
         if defect == "weights_length" and (weights == "none" or nrows == 0): defect = "none"
         if defect in ("nonnumeric", "null") and nrows == 0: defect = "none"
+        if f32:      # values that single precision holds exactly: float32 containers must give the float64 result
+            import struct
+            rows = [[(x if x == "nan" else Fr(struct.unpack("f", struct.pack("f", float(x)))[0])) for x in r] for r in rows]
         chunks = sorted(rng.sample(range(1, max(2, nrows)), min(rng.randint(0, 6), max(0, nrows - 1)))) if nrows > 1 else []
         yield [["bucket", "container/%dd/%s/%s" % (nd, bk, defect)], ["kind", "container"], ["rows", rows], ["weights", weights], ["dropna", "T" if dropna else "F"],
-               ["bins", bins], ["names", names], ["explicit", explicit], ["defect", defect], ["chunks", chunks], ["ints", "T" if ints else "F"]]
+               ["bins", bins], ["names", names], ["explicit", explicit], ["defect", defect], ["chunks", chunks], ["ints", "T" if ints else "F"], ["f32", "T" if f32 else "F"]]
 
 def snap(h):
     import numpy as np
@@ -147,6 +151,13 @@ def impl(case):
                 add("list", lambda: h1(py, bins1, weights=(None if ww is None else list(ww)), **akw), False)
                 add("tuple", lambda: h1(tuple(py), bins1, weights=ww, **akw), False)
                 add("iter", lambda: h1((x for x in py), bins1, weights=ww, **akw), False)
+                if d.get("f32") == "T":
+                    c32 = col.astype(np.float32)
+                    add("array_f32", lambda: h1(c32, bins1, weights=ww, **akw), False)
+                    add("list_f32", lambda: h1(list(c32), bins1, weights=ww, **akw), False)
+                    add("array2d_f32", lambda: h1(c32.reshape(-1, 1), bins1, weights=(None if ww is None else ww.reshape(-1, 1)), **akw), False)
+                    add("pd_series_f32", lambda: h1(pd.Series(c32, name=names[0]), bins1, weights=ww, **akw), True)
+                    add("pl_series_f32", lambda: h1(pl.Series(names[0], c32), bins1, weights=ww, **akw), True)
                 add("array2d", lambda: h1(col.reshape(-1, 1), bins1, weights=(None if ww is None else ww.reshape(-1, 1)), **akw), False)
                 add("pd_series", lambda: h1(pd.Series(col, name=names[0]), bins1, weights=ww, **akw), True)
                 if d["ints"] == "T" and not has_nan and n:
@@ -191,6 +202,11 @@ def impl(case):
                 add("ragged", lambda: h([[1.0, 2.0], [3.0]], bins, **akw), False)
             else:
                 add("array", lambda: h(arr, bins, weights=ww, **akw), False)
+                if d.get("f32") == "T":
+                    a32 = arr.astype(np.float32)
+                    add("array_f32", lambda: h(a32, bins, weights=ww, **akw), False)
+                    add("pd_df_f32", lambda: h(pd.DataFrame(dict(zip(names, [a32[:, k] for k in range(nd)]))), bins, weights=ww, **akw), True)
+                    add("pl_df_f32", lambda: h(pl.DataFrame(dict(zip(names, [a32[:, k] for k in range(nd)]))), bins, weights=ww, **akw), True)
                 if n: add("list_rows", lambda: h([[pyv(x) for x in r] for r in arr], bins, weights=ww, **akw), False)
                 if nd == 2:
                     ccols = [clean[:, k] for k in range(nd)]
